@@ -56,6 +56,9 @@ def run_variant(v: Dict[str, Any], with_tests: bool = False) -> Dict[str, Any]:
         else:
             shutil.copytree(os.path.join(REPO, "simfile"), os.path.join(tmp, "simfile"), ignore=shutil.ignore_patterns("__pycache__"))
         err = _apply(tmp, v["edits"])
+        if not err and v.get("transform"):
+            from .transforms import apply_transform
+            apply_transform(tmp, v["transform"])
         if err:
             out["status"] = "stale"
             out["detail"] = err
